@@ -46,6 +46,7 @@ TEXT_RULE = {
     'tok': 'exhaustive: all strings of length <=4 (thorough <=5) over a 22-character alphabet with one character per alternation/boundary of the tokenizer regex (letters, digit, quote, underscore, space, double quote, braces, < = > - ! & | ( [ , #, a non-ASCII letter, a non-ASCII digit, NUL); every keyword/symbol spelling alone and in all adjacent and spaced pairs; plus seeded token soups, spelling soups, random Unicode, mutated formulas, a third of them under a random ordering with sparse distinct ids',
     'parse': 'exhaustive: every token sequence of length <=3 over the full 36-token alphabet and of length 4 (thorough: 5) over a 20-token reduced alphabet (thorough: length 4 over the full alphabet), rendered to text; plus seeded grammar-directed random formulas (all constructs, all spellings, random whitespace/comments), half of them with 1-3 token-level mutations (drop/insert/swap/replace)',
     'eval': 'the same exhaustive token sequences evaluated (result diagram, vars, free_vars); the counting-constant boundary grid; plus seeded random formulas <= depth 4 over <=6 names with shadowing, binder-only names, monotone-by-construction nested/mixed fixed points, counting over compound operands, constants up to 2^64-1, a third of them under an API ordering with sparse distinct ids incl. unused names',
+    'evalwide': 'sizes beyond the small spaces: conjunction, disjunction, xor chains, quantifier lists, a De Morgan equivalence, reversed first-appearance order and a 2n-deep nesting over n = 32, 33, 64, 65, 70, 129 variables (thorough up to 257); counting over lists of 8, 11, 14 operands; seeded random fixed-point-free formulas of depth 4 over 20 names',
     'evalord': 'API orderings with gaps: 8 formulas x every injective assignment of ids 0..5 to every subset of <=3 of the names a,b,c,d (685 orderings), incl. formulas with up to five unlisted variables; result, vars, free_vars, names compared, and the answer is compared BY NAME with the default-order answer',
     'evalc': 'counting grid: 5 comparisons x 10 constants (0..4, 2^63-2 .. 2^63, 2^64-2, 2^64-1) x 6 operand lists, 5x5 list-vs-list grid; plus seeded random formulas containing a counting comparison',
     'evalfp': '23 hand-picked fixed-point formulas (identity, constants, divergent negation, chains through quantifiers, nested/mixed lfp-gfp, shadowing by quantifier and by inner fixed point, counting, ite); plus seeded random formulas containing lfp/gfp over 3 names, 3/4 monotone by construction, 1/4 arbitrary',
@@ -53,7 +54,7 @@ TEXT_RULE = {
 
 
 def text(parts, exhaustive=True):
-    ops = {'tok': ['tok'], 'parse': ['parse'], 'eval': ['eval'], 'evalc': ['eval'], 'evalfp': ['eval'], 'evalord': ['eval']}
+    ops = {'tok': ['tok'], 'parse': ['parse'], 'eval': ['eval'], 'evalc': ['eval'], 'evalfp': ['eval'], 'evalord': ['eval'], 'evalwide': ['eval']}
     return dict(suite='text', parts=parts, profile='release', exhaustive=exhaustive,
                 corpus_ops=sorted(set(o for p in parts for o in ops[p])),
                 rule='; '.join('%s: %s' % (p, TEXT_RULE[p]) for p in parts))
@@ -92,9 +93,9 @@ def gen(parts):
 
 PROPS = {
     'C02': dict(suites=[bdd(['conn', 'quant', 'count', 'fp', 'model', 'retain', 'clean', 'mixed'])]),
-    'C01': dict(suites=[text(['tok', 'parse', 'eval', 'evalfp'])]),
+    'C01': dict(suites=[text(['tok', 'parse', 'eval', 'evalfp', 'evalwide'])]),
     'C08': dict(suites=[text(['tok', 'parse'])]),
-    'C09': dict(suites=[text(['eval'])]),
+    'C09': dict(suites=[text(['eval', 'evalwide'])]),
     'C10': dict(suites=[cli(['grid', 'order', 'size', 'random'])]),
     'C11': dict(suites=[cli(['order', 'random']), text(['evalord'])]),
     'C12': dict(suites=[cli(['robustlib', 'robustbin', 'grid', 'size'])]),
@@ -103,7 +104,7 @@ PROPS = {
     'C13': dict(lint='c13', suites=[dict(suite='hist', parts=[], profile='release', exhaustive=True,
                              rule='hist: all 1884 operation sequences of length <=3 over a 12-operation alphabet acting on the two latest handles (var, not, and, or, xor, exists, model, retain, mk_choice, clean, counting) in one environment, plus seeded random histories (100 x 100 operations; thorough 2000 x 300) over all public operations incl. fp, with operands drawn from recent and from old handles; after EVERY step: the step re-run in a fresh environment gives the identical result, every earlier handle re-serialises to its recorded text, every node reachable from every handle is pointer-identical to the unique table entry for its structure, both leaves present, every key equals its value. heap: random sequences of direct mk_choice / mk_const calls on earlier results: pointer-equality pattern and table size against the Heap model'),
                         bdd(['mixed'], exhaustive=False)]),
-    'C14': dict(suites=[dict(suite='dot', parts=[], profile='release', exhaustive=True,
+    'C14': dict(lint='c14', suites=[dict(suite='dot', parts=[], profile='release', exhaustive=True,
                              rule='dotbdd: BDDGraph DOT text of all 256 functions over two variable triples x filters Any/True/False and of a stride of the 65536 four-variable functions (thorough: all), parsed back: every node id is replaced by the structure it roots through its T/F edges (a missing edge leads to the leaf the filter hides), node set and edge set compared with dot_nodes / dot_edges of the model, plus flags for an id declared twice, two ids rooting the same structure, an undeclared edge end; dotnamed: the same for evaluated random formulas over names needing escaping (quote, non-ASCII); dottree: SymbolicParseTree DOT text of 18 hand-picked formulas (every node kind, repeated sub-terms) and random formulas, read back as terms from labels and ordered edge labels: node set, edge set and the term rooted at the unique parent-less node compared with the parsed tree')]),
     'C15': dict(suites=[gen(['queens'])]),
     'C16': dict(suites=[gen(['clique'])]),
